@@ -143,7 +143,8 @@ def _validate_shard(trace_module, cfg_text, wd: Path, idx: int, traces, timeout,
     env = {"TRACE_FILE": str(tf)}
     if env_extra:
         env.update(env_extra)
-    rc, out = _java(args, env=env, timeout=timeout, cwd=str(SPEC), heap="768m", gc="-XX:+UseSerialGC")
+    heap = "768m" if tf.stat().st_size < 8_000_000 else "3g"
+    rc, out = _java(args, env=env, timeout=timeout, cwd=str(SPEC), heap=heap, gc="-XX:+UseSerialGC")
     summ = parse_summary(out)
     accepted, info = set(), {}
     for line in out.splitlines():
@@ -179,6 +180,10 @@ def validate(trace_module: str, traces: list, name: str, cfg_text: str = None, s
     # JVMs need 20 s for the same work), so shards are large and few
     shards = max(1, min(shards, 8, n // 10000 + 1))
     size = (n + shards - 1) // shards
+    if size > 40000:
+        # (TLC's JSON reader needs tens of bytes of heap per byte of input: 125k traces in one shard exhausted it)
+        size = 40000
+        shards = (n + size - 1) // size
     jobs = []
     for s in range(shards):
         part = traces[s * size:(s + 1) * size]
@@ -187,7 +192,7 @@ def validate(trace_module: str, traces: list, name: str, cfg_text: str = None, s
     t0 = time.time()
     accepted, info = set(), {}
     gen = dist = 0
-    with ThreadPoolExecutor(max_workers=len(jobs)) as ex:
+    with ThreadPoolExecutor(max_workers=min(8, len(jobs))) as ex:
         futs = [ex.submit(_validate_shard, trace_module, cfg_text, wd, s, part, timeout, env_extra)
                 for s, _, part in jobs]
         for (s, off, part), f in zip(jobs, futs):
